@@ -3,6 +3,8 @@ from . import core
 
 
 def main():
+    # cpppo generators abandoned in mid-parse complain when garbage-collected ('Exception ignored in ...'): noise, not a result
+    sys.unraisablehook = lambda *a: None
     ap = argparse.ArgumentParser()
     ap.add_argument('pid')
     ap.add_argument('--tier', default=os.environ.get('VERIF_TIER', 'quick'))
